@@ -12,7 +12,7 @@ RULE = ('odd runs sweep a systematic enumeration: every node shape ([negated] op
         'small literal context (as premise with 0-1 literal premises and a literal conclusion; as conclusion with 0-2 literal '
         'premises; 31 contexts); the quick tier sweeps all of it in one logic per distinct set of truth-functional rule implementations '
         '(groups read from the rule classes), the thorough tier in every logic; even runs = one generated argument over sentence letters and truth-functional operators only '
-        '(<=4 letters, depth<=3 quick / <=4 thorough, total size<=20, <=2 biconditionals, 0-3 premises, 30% mutated library examples) in one of '
+        '(<=4 letters, depth<=3 quick / <=4 thorough, total size<=20, <=2 biconditionals, 0-3 premises, 30% mutated library examples; 10% with 5-9 further premises repeating one literal alone or as a conjunct) in one of '
         'the 57 logics (stratified), one of the 4 optimisation-option combinations, a seeded tie-break '
         'order and cache size, no step/time limit, stepped by the simulator (lost-tick monitor; a 1200-step budget only marks a run inconclusive); '
         'verdict compared with exhaustive truth-table enumeration in the reference semantics R1. '
@@ -158,6 +158,21 @@ def make_cfg(ctx):
         prems, conc = lexgen.gen_argument(rng, prof)
     if not small_enough(prems, conc):
         prems, conc = [], ('A', 0, 0)
+    if rng.random() < 0.1:
+        # repetitive arguments: one sentence many times over (alone, or as a conjunct next to the
+        # argument's own letters), so that equal node content piles up on a branch
+        letters = sorted({x for s_ in list(prems) + [conc] for x in refsem.walk(s_) if x[0] == 'A'}) or [('A', 0, 0)]
+        p = rng.choice(letters)
+        if rng.random() < 0.3:
+            p = ('O', 'Negation', (p,))
+        extras = []
+        for _ in range(rng.choice((5, 6, 7, 8, 9))):
+            q = rng.choice(letters)
+            r = rng.random()
+            extras.append(p if r < 0.5 else ('O', 'Conjunction', (p, q) if r < 0.75 else (q, p)))
+        prems = list(prems) + extras
+        if rng.random() < 0.5:
+            rng.shuffle(prems)
     srng = ctx.rng('schedule')
     opts = dict(proofwl.ALL_OPT_COMBOS[srng.randrange(4)])
     opts['is_build_models'] = srng.random() < 0.3
